@@ -16,6 +16,9 @@ RULE = ("random op sequences (2-16 / 2-30 ops) over three registers - a NoneOneO
         "algo requests of an account-item tick. "
         "Plus a separately seeded input-domain family (one `d` case per eight random ones): items over the whole i64 domain (negative, i64::MIN / MAX; shifts that leave i64 are bad-op on both sides), lists of 5-12 items, "
         "`eng` ops with 4-6 requests per list. "
+        "Plus a separately seeded configuration-shape family (one `cfg` case of 1-3 `engl` ops per eight random ones; corpus/C03N/cfg_links.ops holds fixed instances; thorough additionally every one of the 27 link patterns x "
+        "6 insertion orders with a ClosePositions command, an algo tick and a cancel command addressing all three exchanges): `engl <links> <order>` is `eng` on an engine assembled differently - each of the three links "
+        "healthy / closed / missing (`None` slot: the failure is an IndexError, not ExecutionChannelTerminated; also BEFORE a linked exchange, all healthy, none healthy), exchanges added in any order. "
         "Distinct by SHA-1 of the op lines; non-trivial when the implementation's observation block changes at least once")
 ASSUMPTIONS = [
     "a Rust iterator argument is a finite list; Vec::push / Vec::extend are append; elements are i64 (the types are generic, the code never inspects an element except through ==)",
